@@ -915,3 +915,115 @@ func FieldNameOf(fa *ssa.FieldAddr) string {
 	}
 	return ""
 }
+
+// LookupInsertSameMap (memo idiom): `if v, ok := A[k]; !ok { B[k] = new }` — an entry inserted because a lookup of the
+// same key missed must go into the map that was looked up. For every map update in fn whose key is (by SSA identity)
+// the key of a comma-ok lookup and which sits on that lookup's miss edge, the updated map must render like the looked-up
+// one. min: number of such idioms confirmed by hand.
+func LookupInsertSameMap(w *World, id, kind, fnName string, min int, what string) []Result {
+	fn := w.Fn(fnName)
+	if fn == nil {
+		return anchorMissing(id, kind, fnName)
+	}
+	construct := kind + ":" + fnName + ":lookup-insert"
+	var out []Result
+	n := 0
+	for _, f := range WithClosures(fn) {
+		for _, b := range f.Blocks {
+			for _, in := range b.Instrs {
+				mu, ok := in.(*ssa.MapUpdate)
+				if !ok {
+					continue
+				}
+				// comma-ok lookups with the same key value
+				for _, b2 := range f.Blocks {
+					if len(b2.Instrs) == 0 || len(b2.Succs) != 2 {
+						continue
+					}
+					ifi, ok := b2.Instrs[len(b2.Instrs)-1].(*ssa.If)
+					if !ok {
+						continue
+					}
+					cond, neg := ifi.Cond, false
+					for {
+						u, isNot := cond.(*ssa.UnOp)
+						if !isNot || u.Op != token.NOT {
+							break
+						}
+						neg = !neg
+						cond = u.X
+					}
+					ex, ok := cond.(*ssa.Extract)
+					if !ok || ex.Index != 1 {
+						continue
+					}
+					lk, ok := ex.Tuple.(*ssa.Lookup)
+					if !ok || !lk.CommaOk || lk.Index != mu.Key {
+						continue
+					}
+					miss := 1
+					if neg {
+						miss = 0
+					}
+					// is the update only reachable over the miss edge of this lookup?
+					c := newCut()
+					c.Edges[EdgeKey{b2, miss}] = true
+					if InstrReachable(mu, c) {
+						continue
+					}
+					n++
+					if a, bb := w.Render(lk.X), w.Render(mu.Map); a != bb {
+						out = append(out, one(id, kind, construct, Violated, n, w.InstrPos(mu), fmt.Sprintf("%s: a miss in `%s` inserts into `%s` — the next lookup misses again and the entry written shadows / is never found", what, clip(a, 60), clip(bb, 60))))
+					}
+				}
+			}
+		}
+	}
+	if n < min {
+		return []Result{one(id, kind, construct, Violated, n, w.Pos(fn.Pos()), fmt.Sprintf("vacuous: %d lookup-or-insert idiom(s) found, %d confirmed by hand", n, min))}
+	}
+	if len(out) == 0 {
+		out = append(out, one(id, kind, construct, Discharged, n, w.Pos(fn.Pos()), what))
+	}
+	return out
+}
+
+// SameIteration: def and use execute in the same iteration of every loop that contains use — def's block lies in the
+// same strongly connected component of the flow graph as use's block, or use is in no loop at all. A value computed
+// outside the loop and stored in each iteration is shared by all iterations.
+func SameIteration(def, use ssa.Instruction) bool {
+	ub, db := use.Block(), def.Block()
+	if ub == nil || db == nil || ub.Parent() != db.Parent() {
+		return false
+	}
+	// natural loops: header h, back edge p→h with h dominating p; body = h plus everything that reaches p avoiding h
+	var inner map[*ssa.BasicBlock]bool
+	for _, h := range ub.Parent().Blocks {
+		var body map[*ssa.BasicBlock]bool
+		for _, p := range h.Preds {
+			if !h.Dominates(p) {
+				continue
+			}
+			if body == nil {
+				body = map[*ssa.BasicBlock]bool{h: true}
+			}
+			st := []*ssa.BasicBlock{p}
+			for len(st) > 0 {
+				x := st[len(st)-1]
+				st = st[:len(st)-1]
+				if body[x] {
+					continue
+				}
+				body[x] = true
+				st = append(st, x.Preds...)
+			}
+		}
+		if body != nil && body[ub] && (inner == nil || len(body) < len(inner)) {
+			inner = body
+		}
+	}
+	if inner == nil {
+		return true // use is not in a loop
+	}
+	return inner[db]
+}
